@@ -10,7 +10,7 @@ var commonAssumptions = []string{
 }
 
 // CheckC01: inbound packets are authentic.
-func CheckC01(tier string) int {
+func modelsC01(tier string) ([]*PktModel, []int) {
 	props := map[string]bool{"C01": true}
 	models := []*PktModel{core2("core2", props, "try"), core3("core3", props, "try")}
 	depth := []int{7, 6}
@@ -19,8 +19,18 @@ func CheckC01(tier string) int {
 		models = append(models, core2("core2-tx-probes", props, "tx"))
 		depth = append(depth, 6)
 	}
+	return models, depth
+}
+
+func CheckC01(tier string) int {
+	models, depth := modelsC01(tier)
+
 	return RunPkt("C01", tier, models, depth, tierBudget(tier, 80*time.Second, 12*time.Minute), append([]string{
 		"probe verdicts come from an independent oracle: a receive message is legitimate iff the chain the packet's own fields select as previous hop holds sha256(data) under commitments/src/dst/sequences/seq and the proof is that chain's proof of that key at its newest height (known to the verifying client)",
 		"port and relay-chain alterations are judged by C13, not here",
 	}, commonAssumptions...))
+}
+
+func init() {
+	PktRegistry["C01"] = func(tier string) []*PktModel { m, _ := modelsC01(tier); return m }
 }
